@@ -158,7 +158,7 @@ func genEquivPair(r *Rng) ([]string, []string) {
 	}
 }
 
-const typedViewDecl = "VAR @b := TRUE; DECLARE tt VIEW (i, f, d, s, b, u) AS SELECT 1, 1.5, DATETIME('2012-02-03 09:18:15'), 'one', TRUE, NULL UNION ALL SELECT 2, -2.25, DATETIME('2013-04-05 10:00:00'), ' Two ', FALSE, NULL UNION ALL SELECT 3, 0.0, DATETIME('2014-06-07 11:00:00'), '3', TRUE, NULL;"
+const typedViewDecl = "VAR @b := TRUE; DECLARE tt VIEW (i, f, d, s, b, u); INSERT INTO tt VALUES (1, 1.5, DATETIME('2012-02-03 09:18:15'), 'one', TRUE, NULL), (2, -2.25, DATETIME('2013-04-05 10:00:00'), ' Two ', FALSE, NULL), (3, 0.5, DATETIME('2014-06-07 11:00:00'), '3', TRUE, NULL);"
 
 // first argument: one value of every class, held by a variable (the aliasing
 // that matters: the function receives the variable's own object)
@@ -168,7 +168,7 @@ var fnArgVars = []string{"@x", "@n", "@f", "@d", "@u", "@b", "@d", "@x"}
 var fnArgParams = []string{"'UTC'", "2", "'%Y-%m-%d'", "'a'", "1", "@n", "@x", "@d", "0", "'Local'"}
 var fnArgCols = []string{"i", "f", "d", "s", "b", "u", "i", "d", "s"}
 
-var builtinNames []string
+var builtinNames, aggNames, anaNames []string
 
 func genFnProbe(r *Rng) c14Stmt {
 	if builtinNames == nil {
@@ -180,6 +180,33 @@ func genFnProbe(r *Rng) c14Stmt {
 			builtinNames = append(builtinNames, n)
 		}
 		sort.Strings(builtinNames)
+	}
+	if r.Bool(0.3) {
+		// aggregate and analytic functions over typed cells and variables
+		if aggNames == nil {
+			for n := range query.AggregateFunctions {
+				aggNames = append(aggNames, n)
+			}
+			for n := range query.AnalyticFunctions {
+				anaNames = append(anaNames, n)
+			}
+			sort.Strings(aggNames)
+			sort.Strings(anaNames)
+		}
+		arg := fnArgCols[r.Intn(len(fnArgCols))]
+		if r.Bool(0.3) {
+			arg = fnArgVars[r.Intn(len(fnArgVars))]
+		}
+		switch r.Intn(4) {
+		case 0:
+			return c14Stmt{Src: fmt.Sprintf("SELECT %s(%s) FROM tt;", aggNames[r.Intn(len(aggNames))], arg), Repeat: 2, Reads: true}
+		case 1:
+			return c14Stmt{Src: fmt.Sprintf("SELECT b, %s(%s), %s(DISTINCT %s) FROM tt GROUP BY b;", aggNames[r.Intn(len(aggNames))], arg, aggNames[r.Intn(len(aggNames))], arg), Repeat: 2, Reads: true}
+		case 2:
+			return c14Stmt{Src: fmt.Sprintf("SELECT i, %s(%s) OVER (PARTITION BY b ORDER BY i) FROM tt;", aggNames[r.Intn(len(aggNames))], arg), Repeat: 2, Reads: true}
+		default:
+			return c14Stmt{Src: fmt.Sprintf("SELECT i, %s(%s) OVER (ORDER BY i) FROM tt;", anaNames[r.Intn(len(anaNames))], arg), Repeat: 2, Reads: true}
+		}
 	}
 	fn := builtinNames[r.Intn(len(builtinNames))]
 	nargs := r.Pick(1, 1, 2, 2, 2, 3)
@@ -340,8 +367,10 @@ func shellSections(out string) (map[string]string, []string, bool) {
 			finished = true
 			cur = ""
 		case strings.HasPrefix(l, "@ERR "):
+			// which row's error is reported first depends on the worker schedule: keep
+			// the class of the error, not the row-specific details
 			f := strings.SplitN(l, " ", 3)
-			secs[f[1]] += "ERROR " + f[2] + "\n"
+			secs[f[1]] += "ERROR " + errClass(f[2]) + "\n"
 		default:
 			if cur != "" {
 				secs[cur] += l + "\n"
@@ -379,10 +408,13 @@ func (c14) Eval(t *testing.T, c *Case, dec func(int) *Decider) *Outcome {
 			continue
 		}
 		p := res.Procs[0]
-		results[pol] = resultOf(res)
+		results[pol] = normErrLines(resultOf(res))
 		secs, astChanged, finished := shellSections(p.Stdout)
 		if !finished && p.ExitCode == 0 {
 			o.viol(prop, "termination", "truncated", "process ended without finishing its statements")
+		}
+		if meta.Kind == "fnprobe" && strings.HasPrefix(secs["1.0"], "ERROR") {
+			o.Infra = append(o.Infra, "the typed table of the function probes could not be declared: "+firstLine(secs["1.0"]))
 		}
 		if pol == "poison" {
 			continue // not a legal allocator: only compared below, as a latent indicator
@@ -506,4 +538,18 @@ func stmtKind(src string) string {
 		}
 	}
 	return k
+}
+
+// normErrLines reduces "@ERR i.r message" lines to the class of the message.
+func normErrLines(s string) string {
+	lines := strings.Split(s, "\n")
+	for i, l := range lines {
+		if strings.HasPrefix(l, "@ERR ") {
+			f := strings.SplitN(l, " ", 3)
+			if len(f) == 3 {
+				lines[i] = f[0] + " " + f[1] + " " + errClass(f[2])
+			}
+		}
+	}
+	return strings.Join(lines, "\n")
 }
